@@ -63,8 +63,8 @@ class Feeder:
         self.chunk_left = 0
         self.sent = 0  # number of messages completely handed to the pipe and unlocked
         self.label = "F%s" % proc.label[1:] if proc.label != "P" else "FP"
-        if q.qid:
-            self.label += "q%d" % q.qid
+        if proc.feeders:  # a process feeding a second, third ... queue
+            self.label += chr(ord("a") + len(proc.feeders))
         self.dropped = 0
 
     def busy(self):
